@@ -51,6 +51,28 @@ Lemma adv_weaken a b p e d ap cb p' e' d' ap' cb' :
 Proof. cnt_solve. Qed.
 Lemma adv_le a b p e d ap cb : adv a b p e d ap cb -> cnt_le a b. Proof. intros [A _]; exact A. Qed.
 
+Section Chain.
+  Context {T : Type} `{Num T}.
+  Definition exit_statuses (st : status) : Prop :=
+    st = StInterrupted \/ st = StConverged \/ st = StMaxTime \/ st = StMaxIter \/ st = StNotFinite \/ st = StNoProgress.
+
+  (* the status chain with a pending request: Interrupted unless a higher-ranked condition holds *)
+  Lemma chain_with_request opts_tol eps te k mi np mnp :
+    let st := stop_status_helpers opts_tol eps te k mi np mnp true in
+    st <> StBusy /\ exit_statuses st /\
+    (st = StInterrupted <-> (nleb eps (eff_tol opts_tol) = false /\ te = false /\ k <> mi /\ nfinite eps = true /\ (np <= mnp)%nat)).
+  Proof.
+    cbv zeta. unfold stop_status_helpers, eff_tol, exit_statuses. cbv zeta.
+    destruct (nleb eps _); [split; [discriminate|split; [tauto|split; [discriminate|intros (?&_); discriminate]]]|].
+    destruct te; [split; [discriminate|split; [tauto|split; [discriminate|intros (_&?&_); discriminate]]]|].
+    destruct (Nat.eqb_spec k mi); [split; [discriminate|split; [tauto|split; [discriminate|intros (_&_&?&_); contradiction]]]|].
+    destruct (nfinite eps); cbn [negb]; [|split; [discriminate|split; [tauto|split; [discriminate|intros (_&_&_&?&_); discriminate]]]].
+    destruct (Nat.ltb_spec mnp np); [split; [discriminate|split; [tauto|split; [discriminate|intros (_&_&_&_&?); lia]]]|].
+    split; [discriminate|split; [tauto|split; [intros _; repeat split; auto|reflexivity]]].
+  Qed.
+
+End Chain.
+
 Section Prompt.
   Context {T : Type} `{Num T}.
   Local Open Scope num_scope.
@@ -299,24 +321,6 @@ Section Prompt.
   Qed.
   Lemma top_curr_same s : same_point (st_curr s) (top_curr s).
   Proof. unfold top_curr. destruct (top_need s); repeat split. Qed.
-
-  Definition exit_statuses (st : status) : Prop :=
-    st = StInterrupted \/ st = StConverged \/ st = StMaxTime \/ st = StMaxIter \/ st = StNotFinite \/ st = StNoProgress.
-
-  (* the status chain with a pending request: Interrupted unless a higher-ranked condition holds *)
-  Lemma chain_with_request opts_tol eps te k mi np mnp :
-    let st := stop_status_helpers opts_tol eps te k mi np mnp true in
-    st <> StBusy /\ exit_statuses st /\
-    (st = StInterrupted <-> (nleb eps (eff_tol opts_tol) = false /\ te = false /\ k <> mi /\ nfinite eps = true /\ (np <= mnp)%nat)).
-  Proof.
-    cbv zeta. unfold stop_status_helpers, eff_tol, exit_statuses. cbv zeta.
-    destruct (nleb eps _); [split; [discriminate|split; [tauto|split; [discriminate|intros (?&_); discriminate]]]|].
-    destruct te; [split; [discriminate|split; [tauto|split; [discriminate|intros (_&?&_); discriminate]]]|].
-    destruct (Nat.eqb_spec k mi); [split; [discriminate|split; [tauto|split; [discriminate|intros (_&_&?&_); contradiction]]]|].
-    destruct (nfinite eps); cbn [negb]; [|split; [discriminate|split; [tauto|split; [discriminate|intros (_&_&_&?&_); discriminate]]]].
-    destruct (Nat.ltb_spec mnp np); [split; [discriminate|split; [tauto|split; [discriminate|intros (_&_&_&_&?); lia]]]|].
-    split; [discriminate|split; [tauto|split; [intros _; repeat split; auto|reflexivity]]].
-  Qed.
 
   (* what the exit branch returns *)
   Lemma pass_exit_facts s st :
